@@ -3,6 +3,9 @@ use super::data::{CachedPayoff, RegretInfoset, RegretParams, SampledChance, Solv
 use super::multinomial::Multinomial;
 use crate::{Chance, ChanceInfoset, Node, Player, PlayerInfoset, PlayerNum};
 use by_address::ByAddress;
+#[cfg(feature = "verif")]
+use crate::verif::thread_rng;
+#[cfg(not(feature = "verif"))]
 use rand::thread_rng;
 use rand_distr::Distribution;
 use rayon::iter::{
@@ -20,6 +23,8 @@ use std::sync::Mutex;
 struct CachedInfoset {
     reg: RegretInfoset,
     cached: usize,
+    #[cfg(feature = "verif")]
+    verif_id: (u8, usize),
 }
 
 impl CachedInfoset {
@@ -28,13 +33,19 @@ impl CachedInfoset {
         CachedInfoset {
             reg: RegretInfoset::new(num_actions),
             cached: 0,
+            #[cfg(feature = "verif")]
+            verif_id: (u8::MAX, usize::MAX),
         }
     }
 
     /// Sample an action from the current strategy, caches between resets
     fn sample(&mut self) -> usize {
         if self.cached == 0 {
+            #[cfg(feature = "verif")]
+            crate::verif::site(self.verif_id.0, self.verif_id.1, &self.reg.strat);
             let res = Multinomial::new(&self.reg.strat).sample(&mut thread_rng());
+            #[cfg(feature = "verif")]
+            let res = crate::verif::drawn(res);
             self.cached = res + 1;
             res
         } else {
@@ -374,6 +385,17 @@ pub(crate) fn solve_external_multi(
             .collect::<Box<[_]>>()
     });
     let [mut reg_one, mut reg_two] = [f64::INFINITY; 2];
+    #[cfg(feature = "verif")]
+    {
+        for (ind, info) in chance_infosets.iter_mut().enumerate() {
+            info.get_mut().unwrap().verif_id = ind;
+        }
+        for (num, player) in [&mut player_one, &mut player_two].into_iter().enumerate() {
+            for (ind, info) in player.iter_mut().enumerate() {
+                info.get_mut().unwrap().verif_id = (num as u8, ind);
+            }
+        }
+    }
 
     // create channels
     let pool = ThreadPoolBuilder::new()
@@ -438,6 +460,17 @@ pub(crate) fn solve_external_single(
             .collect::<Box<[_]>>()
     });
     let [mut reg_one, mut reg_two] = [f64::INFINITY; 2];
+    #[cfg(feature = "verif")]
+    {
+        for (ind, info) in chance_infosets.iter_mut().enumerate() {
+            info.get_mut().verif_id = ind;
+        }
+        for (num, player) in [&mut player_one, &mut player_two].into_iter().enumerate() {
+            for (ind, info) in player.iter_mut().enumerate() {
+                info.get_mut().verif_id = (num as u8, ind);
+            }
+        }
+    }
     for it in 1..=max_iter {
         // player one
         recurse_regret::<true>(start, &chance_infosets, &player_one, &player_two, &());
